@@ -31,7 +31,8 @@ Cat ==
   ("blank_row"        :> {"survey", "choices"})
 Kinds == DOMAIN Cat
 \* number of data rows of each base form's sheets (blank rows may be inserted before row i, 1 <= i <= n + 1)
-BaseRowsN == << [survey |-> 13, choices |-> 5], [survey |-> 9, choices |-> 4], [survey |-> 10, choices |-> 6] >>
+BaseRowsN == << [survey |-> 13, choices |-> 5], [survey |-> 10, choices |-> 5], [survey |-> 10, choices |-> 6],
+               [survey |-> 3, choices |-> 0] >>       \* (base 4: a workbook whose only sheet is the survey)
 
 VARIABLES base, steps, blanks
 lvars == <<base, steps, blanks>>
@@ -41,7 +42,7 @@ Apply(k, s) ==
   /\ Len(steps) < MaxSteps /\ k # "blank_row" /\ s \in Cat[k] /\ ~Used(k, s)
   /\ steps' = Append(steps, [k |-> k, s |-> s, at |-> 0]) /\ UNCHANGED <<base, blanks>>
 InsertBlank(s, p) ==
-  /\ Len(steps) < MaxSteps /\ s \in Cat["blank_row"] /\ p \in 1..(BaseRowsN[base][s] + 1) /\ p \notin blanks[s]
+  /\ Len(steps) < MaxSteps /\ s \in Cat["blank_row"] /\ BaseRowsN[base][s] > 0 /\ p \in 1..(BaseRowsN[base][s] + 1) /\ p \notin blanks[s]
   /\ steps' = Append(steps, [k |-> "blank_row", s |-> s, at |-> p])
   /\ blanks' = [blanks EXCEPT ![s] = @ \cup {p}] /\ UNCHANGED base
 LNext == (\E k \in Kinds, s \in {"survey", "choices", "settings", "workbook"} : Apply(k, s))
